@@ -177,6 +177,9 @@ func (v *PacketDslFormattor) VisitCalculatedFromAttribute(ctx *gen.CalculatedFro
 
 // VisitPaddingAttribute formats padding attribute
 func (v *PacketDslFormattor) VisitPaddingAttribute(ctx *gen.PaddingAttributeContext) interface{} {
+	if ctx.PADDING_CHAR() == nil {
+		return fmt.Sprintf("%s()", ctx.PADDING_ATTR().GetText())
+	}
 	return fmt.Sprintf("%s(%s)", ctx.PADDING_ATTR().GetText(), ctx.PADDING_CHAR().GetText())
 }
 
